@@ -16,6 +16,7 @@ SHARDS = {
     "urwid/display/escape.py:KeyqueueTrie.read_sgrmouse_info": (8, 4),
     "urwid/display/escape.py:KeyqueueTrie.get_recurse": (4, 4),
     "urwid/display/escape.py:process_keyqueue": (4, 4),
+    "urwid/display/_raw_display_base.py:Screen.get_input#after-a-resize": (8, 10),
 }
 
 # Proofs that take minutes: verified by `--tier thorough` only (quick: bounded stand-in decides these functions).
@@ -28,6 +29,7 @@ THOROUGH_ONLY = (
     "urwid/display/common.py:AttrSpec.foreground",
     "urwid/display/common.py:AttrSpec.__set_foreground",
     "urwid/util.py:rle_product",
+    "urwid/display/_raw_display_base.py:Screen.get_input#after-a-resize",  # 1109 paths, ~40 s on one core: the resize-throttling half of get_input (quick: the not-throttling instance + bounded C05/get-input-resize)
     "urwid/canvas.py:TextCanvas.__init__#two-rows",  # 4810 paths, ~9 min on one core (the one-row instance runs in the quick tier)
 )
 SHARDS.update({
@@ -106,6 +108,12 @@ ALSO_SERVES = {
     "C03": ["urwid/util.py:calc_trim_text", "urwid/str_util.py:calc_text_pos", "urwid/str_util.py:calc_width"],
     "C04": ["urwid/util.py:calc_trim_text"],
 }
+# C16 "the monitored lists used for container contents": the callbacks those lists call in their owners.  The validators
+# (before the list changes: a refusal leaves the list as it was) serve C16 as they stand; the `modified` / focus-changed
+# callbacks are verified a second time in the state the list really calls them in (contracts/C16_clients.py).
+ALSO_SERVES["C16"] = ["urwid/widget/grid_flow.py:GridFlow._contents_modified",
+                      "urwid/widget/pile.py:Pile._contents_modified", "urwid/widget/columns.py:Columns._contents_modified",
+                      "urwid/widget/grid_flow.py:GridFlow._invalidate"]
 # draw_screen's skip-unchanged-rows test (`osb[y] == row`), its attribute-switch test (`last_attributes != a`) and the
 # `a in self._pal_escape` lookup are AttrSpec.__eq__ / __hash__ when AttrSpec objects are canvas attributes; AttrMap's
 # attribute dictionaries are keyed by them too: equal exactly when the packed words are equal, hash a function of the word.
@@ -133,4 +141,29 @@ THOROUGH_ONLY = THOROUGH_ONLY + (
 SHARDS.update({
     "urwid/widget/listbox.py:ListBox._keypress_page_up": (16, 12),
     "urwid/widget/listbox.py:ListBox._keypress_page_down": (16, 12),
+# contracts/C10_editgeo.py: the two functions that go through the whole chain translation -> cursor cell -> line position
+# TextCanvas.content (contracts/C02_content.py): one row in full generality (~190 paths, ~30 s on one core); two rows over the
+# whole width (quick); every row window x every column window x with / without a map of two / three rows: ~3 min / ~10 min on one core
+SHARDS.update({
+    "urwid/canvas.py:TextCanvas.content": (6, 8),
+    "urwid/canvas.py:TextCanvas.content#two-rows-any-columns": (8, 8),
+    "urwid/canvas.py:TextCanvas.content#three-rows": (16, 10),
+})
+THOROUGH_ONLY += ("urwid/canvas.py:TextCanvas.content#two-rows-any-columns", "urwid/canvas.py:TextCanvas.content#three-rows")
+
+SHARDS.update({
+    "urwid/widget/edit.py:Edit.keypress#up-down-home-end": (8, 9),
+    "urwid/widget/edit.py:Edit.move_cursor_to_coords": (6, 4),
+    "urwid/widget/edit.py:Edit.get_line_translation": (3, 3),
+})
+SHARDS.update({
+    # palette registration (contracts/C17_palette.py): the first two choices are the None / text alternatives of the two
+    # high-colour fields (primary) and name x form of mono (mono-forms)
+    "urwid/display/common.py:BaseScreen.register_palette_entry": (4, 2),
+    "urwid/display/common.py:BaseScreen.register_palette_entry#mono-forms": (4, 2),
+    # (three functions of ~20 s each on one core: two shards keep each below the critical path of the property's
+    #  quick run without multiplying the shared prefix work)
+    "urwid/widget/pile.py:Pile._get_fixed_rows_sizes": (2, 5),
+    "urwid/widget/columns.py:Columns._get_fixed_column_sizes": (2, 5),
+    "urwid/widget/columns.py:Columns.get_column_sizes#sized": (2, 5),
 })
